@@ -1,6 +1,7 @@
 package main
 
 import (
+	"go/types"
 	"fmt"
 	"go/token"
 	"sort"
@@ -336,4 +337,277 @@ func blockReaches(from, to *ssa.BasicBlock) bool {
 		work = append(work, b.Succs...)
 	}
 	return false
+}
+
+// ---------------------------------------------------------------------------------------------
+// R9.4: every sub-block iteration consumes what the sub-block occupies
+
+func init() {
+	register(ruleDef{ID: "R9.4", Prop: "C09", Tier: "quick", Floor: 6,
+		Title: "sub-block walkers stay in step with the format: an iteration over a sub-block with labels advances the index position, an iteration over a sub-block with two or more labels reaches the byte-boundary step of the packed values, before the next sub-block is looked at; label-count accumulators are wider than 16 bits; the two passes of the encoder step through the same voxels",
+		Fn:    ruleR9_4})
+}
+
+func ruleR9_4(r *Run) {
+	w := r.W
+	nWalk := 0
+	for _, f := range labelsFuncs(w) {
+		for _, g := range withClosures(f) {
+			// the per-sub-block count: a load of NumSBLabels[i] inside a loop
+			for _, b := range g.Blocks {
+				for _, in := range b.Instrs {
+					ld, ok := in.(*ssa.UnOp)
+					if !ok || ld.Op != token.MUL {
+						continue
+					}
+					ia, ok := ld.X.(*ssa.IndexAddr)
+					if !ok {
+						continue
+					}
+					src, ok := ia.X.(*ssa.UnOp)
+					if !ok {
+						continue
+					}
+					fa, ok := src.X.(*ssa.FieldAddr)
+					if !ok {
+						continue
+					}
+					if nm, _, _ := fieldName(fa); nm != "NumSBLabels" {
+						continue
+					}
+					if !blockReaches(b, b) {
+						continue
+					}
+					checkWalker(r, g, ld)
+					nWalk++
+				}
+			}
+		}
+		// accumulators of label counts
+		for _, g := range withClosures(f) {
+			for _, b := range g.Blocks {
+				for _, in := range b.Instrs {
+					bo, ok := in.(*ssa.BinOp)
+					if !ok || bo.Op != token.ADD {
+						continue
+					}
+					bt, ok := bo.Type().Underlying().(*types.Basic)
+					if !ok || !(bt.Kind() == types.Uint16 || bt.Kind() == types.Int16 || bt.Kind() == types.Uint8) {
+						continue
+					}
+					// one operand is a NumSBLabels element (range value or indexed load), the other a running sum (phi)
+					isCount := func(v ssa.Value) bool {
+						for _, rt := range roots(v, g) {
+							switch x := rt.V.(type) {
+							case *ssa.UnOp:
+								if ia, ok := x.X.(*ssa.IndexAddr); ok {
+									if s2, ok := ia.X.(*ssa.UnOp); ok {
+										if fa, ok := s2.X.(*ssa.FieldAddr); ok {
+											if nm, _, _ := fieldName(fa); nm == "NumSBLabels" {
+												return true
+											}
+										}
+									}
+								}
+							}
+						}
+						return false
+					}
+					_, xPhi := bo.X.(*ssa.Phi)
+					_, yPhi := bo.Y.(*ssa.Phi)
+					if (isCount(bo.X) && yPhi) || (isCount(bo.Y) && xPhi) {
+						r.violation(fname(f)+":label-count-accumulator-width", "sub-block label counts are summed in a "+bt.Name()+": a block with 65536 or more sub-block label entries (a dense 64³ block) wraps the sum, the index table is cut short and the packed values are read from inside it", w.pos(bo.Pos()))
+					}
+				}
+			}
+		}
+	}
+	r.check(nWalk >= 6, "labels:sub-block-loops", fmt.Sprintf("%d sub-block loops examined", nWalk), "sub-block loops not found", "-")
+	r.ok("labels:label-count-accumulators", "no 8/16-bit accumulator of sub-block label counts", "-")
+	// encoder: both passes use the same row/plane strides
+	if enc := w.method(lblPkg, "subvolumeData", "encodeBlock"); enc != nil {
+		// expressions  X − F[k]*SubBlockSize : collect the field paths F[k]
+		paths := map[string]int{}
+		for _, b := range enc.Blocks {
+			for _, in := range b.Instrs {
+				bo, ok := in.(*ssa.BinOp)
+				if !ok || bo.Op != token.SUB {
+					continue
+				}
+				m, ok := stripConv(bo.Y).(*ssa.BinOp)
+				if !ok || m.Op != token.MUL {
+					continue
+				}
+				k, isK := constInt(m.Y)
+				if !isK || k != 8 {
+					continue
+				}
+				p := normPath(valuePath(m.X))
+				if p != "" {
+					paths[p]++
+				}
+			}
+		}
+		var ps []string
+		for p := range paths {
+			ps = append(ps, p)
+		}
+		sort.Strings(ps)
+		r.check(len(ps) == 1 && paths[ps[0]] >= 2, "labels.encodeBlock:passes-use-one-plane-stride", "the label-collecting pass and the packing pass step to the next plane with the same stride: "+strings.Join(ps, ","),
+			"the two passes of the encoder advance to the next z-plane with different strides ("+strings.Join(ps, " vs ")+"): the indices are packed for other voxels than the labels were collected from", w.fpos(enc))
+	}
+}
+
+// checkWalker: g contains a sub-block loop whose per-iteration label count is the value n.
+func checkWalker(r *Run, g *ssa.Function, n *ssa.UnOp) {
+	w := r.W
+	nb := n.Block()
+	derivesN := func(v ssa.Value) bool {
+		v = stripConv(v)
+		return v == ssa.Value(n)
+	}
+	nextIter := func(in ssa.Instruction) bool {
+		if in == ssa.Instruction(n) {
+			return true
+		}
+		return successExit(in)
+	}
+	// edges on which the sub-block is known to have ≥1 / ≥2 labels
+	var atLeast1, atLeast2, exactly1 []*ssa.BasicBlock
+	exactly1If := map[*ssa.BasicBlock]*ssa.If{}
+	_ = atLeast1
+	for _, b := range g.Blocks {
+		ifi, ok := b.Instrs[len(b.Instrs)-1].(*ssa.If)
+		if !ok || !nb.Dominates(b) {
+			continue
+		}
+		bo, ok := ifi.Cond.(*ssa.BinOp)
+		if !ok || !derivesN(bo.X) {
+			continue
+		}
+		k, isK := constInt(bo.Y)
+		if !isK {
+			continue
+		}
+		switch {
+		case bo.Op == token.EQL && k == 0:
+			atLeast1 = append(atLeast1, b.Succs[1])
+		case bo.Op == token.EQL && k == 1:
+			// reached after the ==0 test failed in the switch idiom
+			exactly1 = append(exactly1, b.Succs[0])
+			exactly1If[b.Succs[0]] = ifi
+			atLeast2 = append(atLeast2, b.Succs[1])
+		case bo.Op == token.GTR && k == 1, bo.Op == token.GEQ && k == 2:
+			atLeast2 = append(atLeast2, b.Succs[0])
+		case bo.Op == token.LEQ && k == 1, bo.Op == token.LSS && k == 2:
+			atLeast2 = append(atLeast2, b.Succs[1])
+		case bo.Op == token.GTR && k == 0, bo.Op == token.GEQ && k == 1, bo.Op == token.NEQ && k == 0:
+			atLeast1 = append(atLeast1, b.Succs[0])
+		}
+	}
+	// (a) index position: the value indexing SBIndices is advanced
+	var idxPhis []ssa.Value
+	for _, b := range g.Blocks {
+		for _, in := range b.Instrs {
+			ia, ok := in.(*ssa.IndexAddr)
+			if !ok {
+				continue
+			}
+			if s2, ok := ia.X.(*ssa.UnOp); ok {
+				if fa, ok := s2.X.(*ssa.FieldAddr); ok {
+					if nm, _, _ := fieldName(fa); nm == "SBIndices" {
+						idxPhis = append(idxPhis, ia.Index)
+					}
+				}
+			}
+		}
+	}
+	isIdxAdvance := func(in ssa.Instruction) bool {
+		bo, ok := in.(*ssa.BinOp)
+		if !ok || bo.Op != token.ADD {
+			return false
+		}
+		for _, ip := range idxPhis {
+			// the add feeds (through phis) the value used as index, and one operand is itself that chain
+			for _, rt := range roots(ip, g) {
+				if rt.V == ssa.Value(bo) {
+					return true
+				}
+			}
+			if stripConv(bo.X) == stripConv(ip) {
+				return true
+			}
+		}
+		return false
+	}
+	// (only the exactly-one-label case is charged: for two or more labels the advance sits in a loop
+	// bounded by the count, which a path-insensitive search would see as skippable)
+	if len(idxPhis) > 0 && len(exactly1) > 0 {
+		var wit []ssa.Instruction
+		// an advance is an increment of the index position, or passing the header of a copy loop bounded by
+		// the sub-block's count (which runs at least once for a sub-block that has labels)
+		advance := func(in ssa.Instruction) bool {
+			if isIdxAdvance(in) {
+				return true
+			}
+			if ifi, ok := in.(*ssa.If); ok {
+				if bo, ok := ifi.Cond.(*ssa.BinOp); ok && (bo.Op == token.LSS || bo.Op == token.LEQ) && derivesN(bo.Y) {
+					return true
+				}
+			}
+			return false
+		}
+		for _, s := range exactly1 {
+			ifi := exactly1If[s]
+			// reached the one-label test without an advance, and leaves the iteration still without one
+			pre := findPath(g, n, advance, func(in ssa.Instruction) bool { return in == ssa.Instruction(ifi) }, nil)
+			if pre == nil {
+				continue
+			}
+			if p := findPath(g, s.Instrs[0], advance, nextIter, nil); p != nil && !advance(s.Instrs[0]) {
+				wit = append(pre, p...)
+			}
+		}
+		r.check(wit == nil, fname(g)+":index-position-advanced-per-sub-block", "every iteration over a sub-block that has labels advances the position in the sub-block index table",
+			"an iteration over a sub-block that has labels can move on to the next sub-block without advancing the position in SBIndices (an early continue before the increment): every later sub-block is decoded against the wrong labels", w.pos(n.Pos()), w.renderPath(wit)...)
+	}
+	// (b) bit position: the byte-boundary step is reached
+	isRound := func(in ssa.Instruction) bool {
+		ifi, ok := in.(*ssa.If)
+		if !ok {
+			return false
+		}
+		bo, ok := ifi.Cond.(*ssa.BinOp)
+		if !ok || !(bo.Op == token.NEQ || bo.Op == token.EQL) {
+			return false
+		}
+		if k, ok := constInt(bo.Y); !ok || k != 0 {
+			return false
+		}
+		rem, ok := stripConv(bo.X).(*ssa.BinOp)
+		if !ok || rem.Op != token.REM {
+			return false
+		}
+		k, ok := constInt(rem.Y)
+		return ok && k == 8
+	}
+	// the function keeps a running bit position in this loop: the byte-boundary step lies inside the loop
+	hasRound := false
+	for _, b := range g.Blocks {
+		if isRound(b.Instrs[len(b.Instrs)-1]) && (b == nb || (blockReaches(nb, b) && blockReaches(b, nb))) {
+			// not the per-voxel output counter of binary blocks: the remainder must be of a value that is also
+			// advanced by the bit width (heuristic kept simple: any REM-8 test in the loop that dominates the loop latch)
+			hasRound = true
+		}
+	}
+	if hasRound && len(atLeast2) > 0 {
+		var wit []ssa.Instruction
+		for _, s := range atLeast2 {
+			if p := findPath(g, s.Instrs[0], isRound, nextIter, nil); p != nil && !isRound(s.Instrs[0]) {
+				wit = p
+			}
+		}
+		r.check(wit == nil, fname(g)+":bit-position-advanced-per-sub-block", "every iteration over a sub-block with two or more labels reaches the byte-boundary step of the packed values",
+			"an iteration over a sub-block with two or more labels can move on to the next sub-block without stepping over that sub-block's packed values (an early continue before the bit position is advanced): every later sub-block is read from the wrong bits, so counts and views disagree with the uncompressed array", w.pos(n.Pos()), w.renderPath(wit)...)
+	}
 }
